@@ -321,6 +321,28 @@ class C18(Prop):
                     ring_through(PlaceNotationGenerator(stage, pn, cd, cd))
             except Exception as e:  # noqa
                 return f"call definition {req['s']!r} was accepted but cannot be rung ({type(e).__name__})"
+            # ... and rung, it is the call the syntax defines (for definitions written without & , +): Plain Bob
+            # Minor with that definition for Bob and Single, a Bob called at once and a Single half way
+            import re
+            if all(re.fullmatch(r"[0-9ETx.\-]+", v) and ".." not in v and not v.startswith(".") and not v.endswith(".")
+                   for _, v in res["ok"]):
+                def changes_of(text):
+                    out = []
+                    for piece in re.findall(r"[x\-]|[0-9ET]+", text):
+                        out.append([] if piece in "x-" else sorted(gens.BELLS.index(c) + 1 for c in piece))
+                    return out
+                ref = {int(k): changes_of(v) for k, v in res["ok"]}
+                if all(all(all(p <= 6 for p in ch) for ch in chs) for chs in ref.values()):
+                    method = [[], [1, 6]] * 5 + [[], [1, 2]]
+                    ops = "b" + "HB" * 9 + "s" + "HB" * 9
+                    want, ok = gens.ref_call_rows(6, method, 0, [1, 2, 3, 4, 5, 6], ref, ref, ops)
+                    cd = CallDef({int(k): v for k, v in res["ok"]})
+                    got = implrun.impl_gen_on(PlaceNotationGenerator(6, "x16x16x16,12", cd, cd), ops)
+                    rows = [o["row"] for o in got["outs"] if isinstance(o, dict)]
+                    if ok and rows != want:
+                        i = next((i for i in range(min(len(rows), len(want))) if rows[i] != want[i]), min(len(rows), len(want)))
+                        return (f"call definition {req['s']!r} is accepted but not rung as written: row {i} is "
+                                f"{rows[i] if i < len(rows) else None}, the definition gives {want[i] if i < len(want) else None}")
         if req["which"] == "start_row" and "ok" in res:
             try:
                 implrun.helpers.generate_starting_row(max(res["ok"], 4), req["s"])
